@@ -109,6 +109,8 @@ def _run_slice(q, with_reads):
     src = RaggedArray(np.arange(1, n + 1), list(q["lens"]))
     if q["matrix"]:
         src = np.arange(1, n + 1).reshape(len(q["lens"]), q["lens"][0])
+    # (an array built DIRECTLY over (start, length) intervals of another buffer -- RaggedArray(buffer, RaggedView(...)) -- is the
+    #  library's internal lazy form: it follows its buffer until first materialised, on the unchanged library too; not generated)
     s = ragged_slice(src, np.array(q["starts"]), np.array(q["ends"]))
     if with_reads:
         for kind in q["reads"]:
@@ -131,7 +133,15 @@ def _run_slice(q, with_reads):
         src.fill(-5)
     else:
         src.ravel()[...] = -3
-    return [s.tolist(), [int(x) for x in s.lengths]]
+    size_then = int(s.size)
+    # ... and a write into the windows themselves: the source keeps what it had
+    src_then = src.tolist() if hasattr(src, "tolist") else None
+    wrote = False
+    if s.size:
+        j = [i for i, l in enumerate(s.lengths) if l > 0][0]
+        s[j, 0] = -55
+        wrote = True
+    return [size_then, s.tolist(), [int(x) for x in s.lengths], src.tolist() == src_then, wrote]
 
 
 REPEAT_OPS = ["argmax", "argmin", "max", "min", "sum", "mean", "any", "cumsum", "sort", "nonzero", "col_counts", "sum0", "argmax", "argmin", "argmax", "argmin", "max", "min"]
